@@ -47,6 +47,8 @@ type wcase struct {
 	Texts   [][]byte          `json:"texts,omitempty"`  // chunk texts (overlap) / paragraphs (docchunk, layout)
 	Titles  []string          `json:"titles,omitempty"` // section titles (overlap)
 	PerPage int               `json:"per_page,omitempty"`
+	// Boundaries (split): detect semantic boundaries once and pass the same slice to three splits
+	Boundaries bool `json:"boundaries,omitempty"`
 }
 
 type wresult struct {
@@ -131,6 +133,31 @@ func runOne(w *wcase) (res wresult) {
 	}()
 	switch w.Kind {
 	case "split":
+		if w.Boundaries {
+			// semantic boundaries detected once (paragraph blocks) and handed to several
+			// splits, as a caller that keeps them would: a split must not depend on what
+			// an earlier split did with the slice
+			text := string(w.Text)
+			var blocks []rag.ContentBlock
+			for i, t := range strings.Split(text, "\n\n") {
+				blocks = append(blocks, rag.ContentBlock{Type: model.ElementTypeParagraph, Text: t, Page: 1, Index: i})
+			}
+			bs := rag.NewBoundaryDetector().DetectBoundaries(blocks)
+			half := w.Size
+			if half.Max.Value > 2 {
+				half.Max.Value /= 2
+				if half.Target.Value > half.Max.Value {
+					half.Target.Value = half.Max.Value
+				}
+				if half.Min.Value > half.Target.Value {
+					half.Min.Value = half.Target.Value
+				}
+			}
+			rag.NewSizeCalculatorWithConfig(half).SplitToSize(text, bs)
+			rag.NewSizeCalculatorWithConfig(w.Size).SplitToSize(text, bs)
+			res.Pieces = bytesOf(rag.NewSizeCalculatorWithConfig(w.Size).SplitToSize(text, bs))
+			break
+		}
 		res.Pieces = bytesOf(rag.NewSizeCalculatorWithConfig(w.Size).SplitToSize(string(w.Text), nil))
 	case "overlap":
 		chunks := make([]*rag.Chunk, len(w.Texts))
